@@ -14,7 +14,7 @@ from vlib import tlc, expect_holds, ToolError
 
 LEVEL = "model_checking"
 TIERS = {"quick": dict(maxlen=8, replay_full=7, thin=5, random=2500, digits=600),
-         "thorough": dict(maxlen=9, replay_full=9, thin=1, random=50000, digits=600)}
+         "thorough": dict(maxlen=9, replay_full=8, thin=4, random=50000, digits=600)}
 WHAT = {"library": "the library's number parser does not return the number the literal spells",
         "query": "the literal written as a query does not evaluate to the number it spells",
         "percent": "the literal followed by % does not evaluate to a hundredth of the number it spells",
@@ -104,7 +104,7 @@ def run(chk):
     res2 = run_literals(chk, rs, "c07-random", "random literals", chunk=400)
     chk.cov["exhaustive"] = True
     chk.cov["rule"] = ("exhaustive: all %d well-formed literals among the strings of length <= %d over {0 1 9 + - . e E} (model), of which %d (exponent of at most three "
-                       "digits; quick tier: all up to 7 characters and every 5th of the longer ones) are replayed through three entry points (library parser, query, query with %%); "
+                       "digits; all up to 7 (thorough: 8) characters and every 5th (4th) of the longer ones) are replayed through three entry points (library parser, query, query with %%); "
                        "plus %d random literals up to %d digits; one evaluation = one literal; non-trivial = has a point, an exponent or a "
                        "leading zero" % (total, p["maxlen"], len(lits), len(rs), p["digits"]))
     chk.sample({"literal": lits[len(lits) // 3], "literals_replayed": len(lits)})
